@@ -26,15 +26,15 @@ import (
 // ---------------------------------------------------------------------------
 
 type l2Builder struct {
-	p    *l2Params
-	res  *l2Result
-	nd   *node.Node
-	w    *l2World
-	e    *node.Era
-	trf  *os.File
+	p       *l2Params
+	res     *l2Result
+	nd      *node.Node
+	w       *l2World
+	e       *node.Era
+	trf     *os.File
 	rescued bool
-	off  int    // producer index currently offline (-1 none)
-	offT uint32 // height at which it comes back at the latest
+	off     int    // producer index currently offline (-1 none)
+	offT    uint32 // height at which it comes back at the latest
 }
 
 func (b *l2Builder) tracef(f string, a ...interface{}) {
